@@ -85,7 +85,7 @@ class RecObserver(W.Worker):
         self.vf_sched.yield_point("observer-begin")
         self.vf_sched.progress()
         _id, region = message
-        self.vf_log.append((_id, region.meta.start, region.meta.end, bytes(region)))
+        self.vf_log.append((_id, region.start, region.end, bytes(region)))
         self.vf_sched.yield_point("observer-end")
 
 
